@@ -13,7 +13,7 @@ SHARDS = {"quick": 4, "thorough": 16}
 BUDGET = {"quick": 20, "thorough": 200}
 MIN_CASES = {"quick": 5000, "thorough": 100000}
 EXHAUSTIVE_CLAIM = True
-RULE = ("URLs rendered from the product of component shapes (7 scheme spellings x 6 userinfo x 24 hosts incl. IPv4, bracketed IPv6 with/without hex letters, "
+RULE = ("URLs rendered from the product of component shapes (7 scheme spellings x 6 userinfo x 26 hosts incl. IPv4, bracketed IPv6 with/without hex letters, "
         "localhost, multi-label/wildcard/exception suffixes, IDN x 6 ports incl. empty x 12 paths incl. empty segments x 7 queries x 6 fragments): quick = every "
         "single and pairwise deviation from a base URL plus a seeded sample, thorough = the full product; plus seeded random URLs with random tokens; x suffix_aware. "
         "A case is (url, suffix_aware); non-trivial = the URL has at least two of {userinfo, port, non-root path, query, fragment} or a special host; distinct = distinct (url, suffix_aware).")
@@ -26,7 +26,7 @@ SCHEMES = ["http://", "", "https://", "ftp://", "HTTP://", "//", "wss://"]
 USERINFO = ["", "user@", "user:pw@", ":pw@", "us.er:p:w@", "%40u:p%3A@"]
 HOSTS = ["a.com", "www.a.co.uk", "A.Com", "b.a.compute.amazonaws.com", "foo.ck", "www.ck", "x.city.kawasaki.jp", "1.2.3.4", "[::1]", "[2001:db8::1]",
          "[fe80::a:b]", "[1:2:3:4:5:6:7:8]", "[::ffff:1.2.3.4]", "localhost", "com", "co.uk", "xn--tlrama-bvab.fr", "télérama.fr", "unknown.zzzz", "a.b.c.d.e.f",
-         "svc.firenet.ch", "a-b.example.org", "127.0.0.1", "WWW.Example.ORG"]
+         "svc.firenet.ch", "a-b.example.org", "127.0.0.1", "WWW.Example.ORG", "cafe.be", "[2001:DB8::A]"]
 PORTS = ["", ":8080", ":80", ":", ":0080", ":65535"]
 PATHS = ["", "/", "/a", "/a/", "/a//b", "//", "/a/b/c", "/a:b@c", "/a b", "/é/%C3%A9", "/a/./../b", "///"]
 QUERIES = ["", "?", "?a=1", "?a=1&b", "?x:y@z", "?a=?b/c", "?é=%20"]
